@@ -174,6 +174,11 @@ def run(tier):
                     res = I.inline(F.fn(P + "Deb822::remove_paragraph"), [("ref", (("T", "doc"),)), hirai.mkint(op[1])], s0)
                     if op[1] < len(model):
                         del model[op[1]]
+                if op[0] in ("add", "insert") and len(res) == 1 and res[0][0] == OK and not empty_fill:
+                    live0 = live_paragraphs_acc(F, tm, res[0][2])
+                    want0 = [list(p) for p in base]
+                    want0.insert(len(want0) if op[0] == "add" else min(op[1], len(want0)), [])
+                    C.ob("C05/live-after-%s" % op[0], label, live0 == want0, "paragraphs() right after the operation (nothing set yet) reports %s, the list model has %s" % (live0, want0), F.fn(P + "Deb822::paragraphs")["sp"])
                 if op[0] in ("add", "insert") and len(res) == 1 and res[0][0] == OK:
                     # fill the returned paragraph
                     s1 = res[0][2].setroot(("T", "newp"), I.deref_val(res[0][2], res[0][1]))
@@ -196,8 +201,10 @@ def run(tier):
             C.ob("C05/printed-wellformed", label, err is None, "the document prints %r which does not re-read as the same paragraphs: %s" % (text, err), fn_sp)
             if err is None:
                 C.ob("C05/printed-paragraphs", label, got_paras == model, "the printed document %r re-reads as paragraphs %s, the list model has %s" % (text, got_paras, model), fn_sp)
-            # live paragraphs
-            live = live_paragraphs(F, tm, s, root, h)
+            # live paragraphs, as the repository's own accessors report them (Deb822::paragraphs x Paragraph::items)
+            live = live_paragraphs_acc(F, tm, s)
+            if live is None:
+                live = live_paragraphs(F, tm, s, root, h)
             C.ob("C05/live-paragraphs", label, live == model, "paragraphs() of the edited document reports %s, the list model has %s" % (live, model), fn_sp)
             comments1 = [symstr.show(t) for k, t in flat if k == "COMMENT"]
             want_comments = list(comments0)
@@ -214,6 +221,35 @@ def run(tier):
                       "the flattened token sequence re-lexes to itself when it is accepted by the well-formed grammar (each token text was produced by the lexer or by a constructor emitting the same character classes)"]
     return C.finish("Paragraph-level operations are interpreted on the parser's trees for 7 symbolic layouts and every index; live paragraph list, well-formedness and paragraph split of the printed token sequence, "
                     "and comment preservation are compared with the list model.")
+
+
+def live_paragraphs_acc(F, tm, s):
+    I = hirai.Interp(F, tm, max_depth=16)
+    I.max_recursion = 6
+    if ("T", "doc") not in s.store:
+        return None
+    r = I.inline(F.fn(P + "Deb822::paragraphs"), [("ref", (("T", "doc"),))], s)
+    if len(r) != 1 or r[0][0] != OK:
+        return None
+    out = []
+    d = tm.drain(I, r[0][2], I.deref_val(r[0][2], r[0][1]), {})
+    if len(d) != 1 or d[0][0] is None:
+        return None
+    st = d[0][1]
+    for pv in d[0][0]:
+        st, pp = I.newtemp(st, I.deref_val(st, pv))
+        r2 = I.inline(F.fn(P + "Paragraph::items"), [("ref", pp)], st)
+        if len(r2) != 1 or r2[0][0] != OK:
+            return None
+        d2 = tm.drain(I, r2[0][2], I.deref_val(r2[0][2], r2[0][1]), {})
+        if len(d2) != 1 or d2[0][0] is None:
+            return None
+        items = []
+        for x in d2[0][0]:
+            x = I.deref_val(d2[0][1], x)
+            items.append((symstr.show(I.deref_val(d2[0][1], x[1][0])), symstr.show(I.deref_val(d2[0][1], x[1][1]))))
+        out.append(items)
+    return out
 
 
 def live_paragraphs(F, tm, s, root, h):
